@@ -254,9 +254,45 @@ func eleHuge(s *Shard, prop string, fn func(c *Case, cfg eleCfg)) {
 	}
 }
 
+// eleNearCut: two alternatives that trade off two criteria (k = 1, p = 1): sigma(A,B) = 1 - y/2, sigma(B,A) = 1 - x/2.
+// With the default distillation function A outranks B exactly when x > 1.15y + 0.3; x is placed a few 1e-10 .. 1e-8 on
+// either side of that line (values with more than eight significant decimals), so that the strict comparison of the
+// distillation is decided inside the ninth decimal of the credibilities. Same for the mirrored pair.
+func eleNearCut(s *Shard, prop string, fn func(c *Case, cfg eleCfg)) {
+	for _, y := range []float64{0.2, 0.1, 0.25, 0.1999999902, 1.0 / 3} {
+		for _, d := range []float64{1e-10, 1e-9, 3e-9, 6e-9, 2e-8} {
+			for _, sign := range []float64{-1, 1} {
+				if !s.Take() {
+					continue
+				}
+				x := 1.15*y + 0.3 + sign*d
+				for _, swap := range []bool{false, true} {
+					vals := [][]float64{{x, 0}, {0, y}}
+					if swap {
+						vals = [][]float64{{0, y}, {x, 0}}
+					}
+					for _, typ := range []string{"gain", "cost"} {
+						v := vals
+						if typ == "cost" {
+							v = [][]float64{{-vals[0][0], vals[0][1]}, {-vals[1][0], vals[1][1]}}
+						}
+						cfg := eleCfg{N: 2, Vals: v, Types: []string{typ, "gain"}, Thr: []thr{{P: 1}, {P: 1}}, K: []float64{1, 1}, Dist: eleDists[0]}
+						fn(&Case{Prop: prop, Kind: "electre", Req: eleRequest(cfg)}, cfg)
+					}
+				}
+			}
+		}
+	}
+}
+
 func c05Run(s *Shard) {
 	cur = s
 	sampled := 0
+	eleNearCut(s, "C05", func(c *Case, cfg eleCfg) {
+		s.Evals++
+		s.Begin(c)
+		s.Report(c05Check(c))
+	})
 	eleHuge(s, "C05", func(c *Case, cfg eleCfg) {
 		s.Evals++
 		s.Begin(c)
